@@ -54,3 +54,14 @@ func consumerIDs(c *arrow_record.Consumer) []string {
 	}
 	return out
 }
+
+// consumerOpenIDs: the schema ids whose IPC reader has been opened (whatever became of it).
+func consumerOpenIDs(c *arrow_record.Consumer) []string {
+	out := []string{}
+	for _, s := range c.VerifStreams() {
+		if s.State != "unopened" {
+			out = append(out, s.SchemaID)
+		}
+	}
+	return out
+}
